@@ -31,7 +31,7 @@ from pony.orm import core, dbschema, dbapiprovider, ormtypes, sqltranslation
 from pony.orm.core import log_orm
 from pony.orm.dbapiprovider import DBAPIProvider, Pool, get_version_tuple, wrap_dbapi_exceptions
 from pony.orm.sqltranslation import SQLTranslator, TranslationError
-from pony.orm.sqlbuilding import Value, Param, SQLBuilder, join
+from pony.orm.sqlbuilding import Value, Param, SQLBuilder, join, make_binary_op
 from pony.utils import throw
 from pony.converting import str2timedelta, timedelta2str
 
@@ -63,6 +63,7 @@ class MySQLValue(Value):
 class MySQLBuilder(SQLBuilder):
     dialect = 'MySQL'
     value_class = MySQLValue
+    FLOORDIV = make_binary_op(' DIV ', True)  # in MySQL '/' is decimal division
     def CONCAT(builder, *args):
         return 'concat(',  join(', ', map(builder, args)), ')'
     def TRIM(builder, expr, chars=None):
